@@ -208,3 +208,21 @@ PLAN["C08"] = {
     "thorough": [{"test": "TestC08_Helpers", "checks": 3000, "shards": 10, "timeout": 3000},
                  {"test": "TestC08_CLI", "checks": 120, "shards": 6, "cli": True, "timeout": 3000}],
 }
+
+PLAN["C10"] = {
+    "level": "exploration",
+    "rule": ("(Synthetic, rapid, no proving) proofs assembled from generated group elements: Ar/Krs in G1 from points with very small x (x=1,2,3.. with x^3+3 a square, either sign of y), scalar multiples searched "
+             "until a coordinate is shorter than 32 bytes, or uniform scalar multiples; Bs = scalar multiples of the G2 generator, half of them searched for a short coordinate. (Real, rapid) proofs produced by "
+             "ProveInsertion/ProveDeletion at (3,2) for generated valid batches (about 15% have a short coordinate), carried with the raw verifying key and public input. Oracle: (1) json.Marshal(&Proof) read by the "
+             "harness's own parser lists exactly A.x,A.y,B.x1,B.x0,B.y1,B.y0,C.x,C.y as 0x-hex integers equal to the struct's field elements (read by reflection); (2) json.Unmarshal of that text succeeds and yields "
+             "field-wise equal points; (3) for real proofs the decoded proof still verifies (groth16.Verify with a public witness built by the harness); (4) harness-written JSON zero-padded to 64 digits decodes to the same proof. "
+             "Non-trivial = at least one coordinate shorter than 32 bytes (all 8 positions are required to occur in the synthetic run); distinct = SHA-1 of the coordinates."),
+    "assumptions": A_COMMON + ["gnark's WriteRawTo/ReadFrom and field types are trusted as the ground truth for the proof's points"],
+    "technique": "round-trip and differential property testing with a generator built to reach short coordinates; independent codec via reflection",
+    "level_text": "Exploration: thousands of synthetic proofs with short coordinates in every position per run, plus real proofs; both encoder order/values and decoder losslessness are checked against an independent codec.",
+    "level_note": "the EVM order is taken from the property statement; verification of real proofs uses gnark's verifier",
+    "quick": [{"test": "TestC10_Synthetic", "checks": 3000, "timeout": 600},
+              {"test": "TestC10_Real", "checks": 30, "shards": 2, "timeout": 900}],
+    "thorough": [{"test": "TestC10_Synthetic", "checks": 20000, "shards": 8, "timeout": 1800},
+                 {"test": "TestC10_Real", "checks": 120, "shards": 8, "timeout": 3000}],
+}
